@@ -214,6 +214,65 @@ def postponed_histories(rep, tier, wd):
         rep.selftests["deviant_strict_nested_compilation_refuted"] = "Faithful" in str(e)
 
 
+def registry_threads(rep, tier, seed, wd):
+    """sys/RegistryThreads.tla (Faithful + Monotone by TLC, the clearing deviant refuted) and its binding: concurrent FIRST calls
+    through a discriminated dispatch (class-level and Annotated-field sites, same / different tags), interleaved line by line
+    of the generated code under seeded random schedules; every thread gets what the sequential call gives"""
+    import random
+    from harness import sched
+    from harness.terms import Registry, abstract_value, concretize_type, concretize_value
+    r = tlc.run_tlc("MC_RegistryThreads", workdir=wd, workers=4, timeout=300)
+    rep.add_tlc(r, "MC_RegistryThreads: Faithful, Monotone over all interleavings of 3 threads x 2 tags")
+    if r.violated:
+        raise tlc.MachineryError(f"RegistryThreads.tla violated: {r.violated}")
+    try:
+        rd = tlc.run_tlc("MC_RegistryThreads", workdir=wd, workers=4, timeout=300,
+                         cfg_text=core.cfg_text("MC_RegistryThreads.cfg", Refill='"clear-then-add"').replace("PROPERTY Monotone\n", ""))
+        rep.selftests["clearing_registry_refuted_by_TLC"] = "Faithful" in rd.violated
+    except tlc.MachineryError as e:
+        rep.selftests["clearing_registry_refuted_by_TLC"] = "Faithful" in str(e)
+    dopts = [["field", "type"], ["include_subtypes", True]]
+    cv = lambda t: [["classvars", [["type", ["str", t]]]]]       # noqa: E731
+    rf = [["v", ["int"], ["req"], []]]
+
+    def family(site):
+        root = ["dc", "R", rf, cv("r") + ([["discriminator", dopts], ["discr_field", "type"]] if site == "config" else [])]
+        subs = [["dc", n, rf + [[f, ["int"], ["val", ["int", 0]], []]], [["bases", [root]]] + cv(t)] for n, f, t in (("A", "x", "a"), ("B", "y", "b"), ("C3", "z", "c"))]
+        holder = ["dc", "HD", [["f", ["discr", root, dopts], ["req"], []]], []]
+        return root, subs, holder
+    rnd = random.Random(seed * 7 + 5)
+    n = 0
+    rounds = 150 if tier == "quick" else 1500
+    for k in range(rounds):
+        site = ("config", "field")[k % 2]
+        tags = rnd.choice([("a", "b"), ("a", "a"), ("b", "c"), ("c", "a")])
+        root, subs, holder = family(site)
+        reg = Registry()
+        try:
+            R = concretize_type(root, reg)
+            for s_ in subs:
+                concretize_type(s_, reg)
+            H = concretize_type(holder, reg) if site == "field" else None
+
+            def call(tag, _R=R, _H=H):
+                d = {"v": 1, "type": tag}
+                return abstract_value(_R.from_dict(d) if _H is None else _H.from_dict({"f": d}), reg)
+            schedule = [rnd.choice((1, 2)) for _ in range(rnd.choice((40, 80, 160)))]
+            results, _ds = sched.run_line_schedule(schedule, {1: (lambda: call(tags[0])), 2: (lambda: call(tags[1]))})
+            n += 1
+            for tid in (1, 2):
+                exp = call(tags[tid - 1])                       # the sequential call on the same (now warm) family
+                kind, val = results.get(tid, ("exc", "thread did not finish"))
+                if kind != "ok" or not terms_equal(val, exp):
+                    rep.violation("thread-schedule", {"site": site, "tags": list(tags), "thread": tid, "schedule": schedule, "expected": exp, "actual": val,
+                                                      "family": "discriminated first calls, line-level", "replay_module": "harness.checks.c14_extra"})
+                    break
+        finally:
+            reg.close()
+    rep.count(n)
+    rep.cov["traces_validated_against_impl"] += n
+
+
 def discriminated_first_use(rep, wd):
     """the per-format method of a discriminated variant is compiled on demand by whoever uses the variant first under that
     format -- the class-level dispatch or a holder nesting it: both orders give the reference round trip (MC_C04 dfvec records)"""
@@ -231,6 +290,7 @@ def run(rep, tier, seed):
     stress(rep, tier, seed, wd)
     forward_refs(rep, tier)
     postponed_histories(rep, tier, wd)
+    registry_threads(rep, tier, seed, wd)
     discriminated_first_use(rep, wd)
 
 
